@@ -27,7 +27,7 @@ func loadOfRecvField(fn *ssa.Function, v ssa.Value, name string) bool {
 	case *ssa.Field:
 		base = x.X
 	}
-	return len(fn.Params) > 0 && base == fn.Params[0]
+	return isReceiverValue(fn, base)
 }
 
 // derivesFromInstanceNameOf: v derives from GetInstanceName() applied to a
@@ -154,8 +154,10 @@ func completeVerdictLoop(errs ssa.Value, site ssa.Instruction) (bool, string) {
 		if !ok || !isFullRangeIndex(ia.Index, errs) {
 			continue
 		}
-		inc := ia.Index.(*ssa.BinOp)
-		header := inc.Block()
+		header := rangeIndexHeader(ia.Index)
+		if header == nil {
+			continue
+		}
 		// the element load and its nil test
 		for _, lr := range *ia.Referrers() {
 			ld, ok := lr.(*ssa.UnOp)
@@ -315,7 +317,10 @@ func fullItemsRange(c *Ctx, fn *ssa.Function, v ssa.Value, params map[ssa.Value]
 			if !ok || !isMethodCall(ic.Common(), set, "Items") || !params[ic.Call.Args[0]] {
 				return false
 			}
-			header := idx.(*ssa.BinOp).Block()
+			header := rangeIndexHeader(idx)
+			if header == nil {
+				return false
+			}
 			// the loop is on every path to the site, and the site is after it
 			if !header.Dominates(site.Block()) || blockReaches(site.Block(), header, nil) {
 				return false
@@ -575,11 +580,19 @@ func runR184(c *Ctx) {
 		okPos := false
 		why := "a position list receives something that is neither a position in the first member's verdict list nor the same-position entry of the previous list"
 		deepSlice(fn, call.Call.Args[1], func(x ssa.Value) bool {
+			if isFullRangeIndex(x, ssa.Value(first)) {
+				okPos = true
+				return false
+			}
+			for _, cl := range calls {
+				if cl != first && isFullRangeIndex(x, ssa.Value(cl)) {
+					why = "a position list receives the loop index of a later member's verdicts instead of the original position (verdicts of later members would be written to the wrong instance name)"
+					return false
+				}
+			}
 			switch v := x.(type) {
 			case *ssa.BinOp:
-				// a range index: must range over the first list
-				if isFullRangeIndex(v, ssa.Value(first)) {
-					okPos = true
+				if false {
 				} else if v.Op == token.ADD {
 					why = "a position list receives the loop index of a later member's verdicts instead of the original position (verdicts of later members would be written to the wrong instance name)"
 				}
